@@ -1628,7 +1628,15 @@ class WriteTool(BaseTool):
 
         # Diff-first output + hashes (works for dry-run)
         result["diff_unified"] = self._build_unified_diff(baseline_content_for_diff, canonical_content)
-        result["canonical_hash"] = self._compute_hash(canonical_content)
+        try:
+            result["canonical_hash"] = self._compute_hash(canonical_content)
+        except UnicodeEncodeError as e:
+            # A lone surrogate (e.g. from a JSON \udXXX escape) cannot be written as UTF-8
+            return self._error_envelope(
+                target_path,
+                [{"code": "E_WRITE", "message": f"Content cannot be encoded as UTF-8: {e}"}],
+                result["corrections"],
+            )
 
         content_changed = baseline_content_for_diff != canonical_content
         result["diff"] = self._generate_diff(
